@@ -173,11 +173,15 @@ def prangeTargetArray (i : Bytes) : PR (List (List Nat)) :=
       let (ts, r'') := sepListGo r'.length r'
       (ptagS "]" (space0 r'')).bind fun _ r3 => .ok (t :: ts) r3
 
+/-- `target_string.map(|res| vec![res])` -/
+def ptargetSingle (i : Bytes) : PR (List (List Nat)) :=
+  (ptargetString i).bind fun t k => .ok [t] k
+
 /-- `bf_range_line` -/
 def pbfRangeLine (i : Bytes) : PR ((Nat × Nat × Nat) × List (List Nat)) :=
   (pcodeRangePair (space0 i)).bind fun rng r =>
     let r := space0 r
-    (palt (fun j => (ptargetString j).bind fun t k => .ok [t] k) prangeTargetArray r).bind fun dsts r' =>
+    (palt ptargetSingle prangeTargetArray r).bind fun dsts r' =>
       (pms1 r').bind fun _ r'' => .ok (rng, dsts) r''
 
 /-- `bf_char_line` -/
